@@ -373,6 +373,7 @@ class C07(base.Engine):
                      'ops': [{'op': 'knob', 'name': k, 'value': v} for k, v in sorted(case['knobs'].items())]}
         sub = None
         seg_n = 0
+        unsaved_in_cache = set()    # paths whose parso entry (this process) holds an UNSAVED buffer's tree
         clock_ops = []      # advance ops executed so far (process-local clock is rebuilt after a restart)
         try:
             sid_n = 0
@@ -423,6 +424,7 @@ class C07(base.Engine):
                     seg.append({'op': 'query', 'code': None, 'path': 'main.py', 'project': {'path': '.'},
                                 'probes': [{'m': 'get_names', 'light': True}, {'m': 'infer', 'l': 13, 'c': 1}]})
                 desc = None
+                applied_here = False
                 for op in seg:
                     ev = sub.step(op)
                     if ev is None:
@@ -451,8 +453,15 @@ class C07(base.Engine):
                             if res.get('diff_again') != res.get('diff'):
                                 problems.append(('get_diff_not_repeatable', {'op': ev['i'], 'kind': kind, 'args': args}))
                             for pr in check_diff(res, originals):
-                                problems.append(('I3:' + pr[0], {'op': ev['i'], 'kind': kind, 'args': args,
-                                                                 'path': path, 'why': pr[1]}))
+                                f = pr[1].get('file') if isinstance(pr[1], dict) else None
+                                name = pr[0]
+                                if f is not None and f != path and f in unsaved_in_cache and \
+                                        name in ('diff_does_not_apply', 'diff_result_differs_from_new_code'):
+                                    # listed finding: ANOTHER file of the refactoring was taken from parso's
+                                    # cache, which still holds the tree of an unsaved buffer on that path
+                                    name = 'unsaved_buffer_tree_used_for_other_file'
+                                problems.append(('I3:' + name, {'op': ev['i'], 'kind': kind, 'args': args,
+                                                                'path': path, 'why': pr[1]}))
                         else:
                             stats['refused:%s' % (res[1] if isinstance(res, list) and len(res) > 1 else res)] += 1
                     elif op['op'] == 'refactor_inspect' and desc is not None:
@@ -462,6 +471,9 @@ class C07(base.Engine):
                         if res == 'applied' and desc is not None:
                             model.apply_refactoring(desc)
                             stats['applied'] += 1
+                            applied_here = True
+                            for pth in desc['files']:
+                                unsaved_in_cache.discard(_rel(pth))     # rewritten: newer mtime invalidates the entry
                         elif isinstance(res, list) and res and res[0] == 'EXC':
                             stats['apply_failed:%s' % res[1]] += 1
                             if res[1] != 'RefactoringError':
@@ -475,9 +487,12 @@ class C07(base.Engine):
                         which = 'I2:after_apply' if op['op'] == 'refactor_apply' else 'I1:changed_before_apply'
                         problems.append((which + ':' + op['op'], {'op': ev['i'], 'kind': kind, 'args': args, 'diff': d[:5]}))
                         return self._done(problems, stats, events_all, case)
+                if step['unsaved'] and not applied_here:
+                    unsaved_in_cache.add(path)
                 if b == 'host_restart':
                     sub.close()
                     sub = None
+                    unsaved_in_cache.clear()
                     stats['host_restarts'] += 1
         finally:
             if sub is not None:
@@ -489,9 +504,9 @@ class C07(base.Engine):
         st = dict(stats)
         st['digest'] = driver.events_digest([{k: v for k, v in e.items() if k != 'snap'} for e in events])
         if problems:
-            problems.sort(key=lambda p: p[0] == 'I3:phantom_eof_line')
+            problems.sort(key=lambda p: p[0] in ('I3:phantom_eof_line', 'I3:unsaved_buffer_tree_used_for_other_file'))
             return {'verdict': 'violation', 'sig': problems[0][0],
-                    'detail': {'problems': [[s, d] for s, d in sorted(problems, key=lambda p: p[0] == 'I3:phantom_eof_line')[:60]], 'n': len(problems)}, 'stats': st}
+                    'detail': {'problems': [[s, d] for s, d in sorted(problems, key=lambda p: p[0] in ('I3:phantom_eof_line', 'I3:unsaved_buffer_tree_used_for_other_file'))[:80]], 'n': len(problems)}, 'stats': st}
         return {'verdict': 'ok', 'stats': st}
 
     def run(self, tier, seed, budget_s):
@@ -513,11 +528,18 @@ class C07(base.Engine):
     def known_match(self, case, result, known):
         probs = (result.get('detail') or {}).get('problems') or []
         n = (result.get('detail') or {}).get('n', 0)
-        for k in known['findings']:
-            if k.get('property') == 'C07' and k.get('match', {}).get('problem') == 'I3:phantom_eof_line':
-                if probs and n == sum(1 for p in probs if p[0] == 'I3:phantom_eof_line'):
-                    return k
-        return None
+        listed = {k['match']['problem']: k for k in known['findings']
+                  if k.get('property') == 'C07' and k.get('match', {}).get('problem')}
+        if not probs or n != len(probs):
+            return None
+        hit = None
+        for p in probs:
+            k = listed.get(p[0])
+            if k is None:
+                return None
+            if hit is None or k['id'] != 'C07-diff-phantom-eof-line':
+                hit = k
+        return hit
 
     def coverage(self, pairs, tier):
         ev = 0
